@@ -1,4 +1,194 @@
-//! C01 — not built yet.
+//! C01 — compiled protocol computes the same function as the source graph.
+//! (1) end-to-end oracle: compile_context output evaluated by one evaluator vs the source graph,
+//!     over programs x owner vectors x output subsets x inline modes x seeds;
+//! (2) T:ring obligations: for programs of the elementwise fragment the exported compiled graph
+//!     and the source graph are read over an arbitrary commutative ring (Model/RingEval.v) and
+//!     their equality is proved by `ring` inside Coq on every run: for all inputs, all PRF values.
+use crate::c02::*;
+use crate::coqfmt::*;
+use crate::export::*;
+use crate::gen::*;
+use crate::mpcgen::*;
 use crate::out::Out;
-pub const HEADER: &str = "From CC Require Import Base.Prelude.";
-pub fn run(_tier: &str, _seed: u64, _out: &mut Out) {}
+use crate::progen::*;
+use crate::rng::Rng;
+use ciphercore_base::data_types::*;
+use ciphercore_base::data_values::Value;
+use ciphercore_base::evaluators::evaluate_simple_evaluator;
+use ciphercore_base::graphs::*;
+use ciphercore_base::inline::inline_ops::InlineConfig;
+use ciphercore_base::mpc::mpc_compiler::IOStatus;
+use serde_json::json;
+
+pub const HEADER: &str = "From Coq Require Import Ring.\nFrom CC Require Import Base.Prelude Base.Scalar Base.Ty Base.Shape Graph.Value Graph.IR Model.RingEval.";
+
+/// the compiled graph's input values for an owner vector: Shared inputs are presented as shares
+pub fn present_inputs(input_types: &[Type], owners: &[IOStatus], plain: &[Value], rng: &mut Rng) -> Vec<Value> {
+    let mut res = vec![];
+    for ((t, o), x) in input_types.iter().zip(owners.iter()).zip(plain.iter()) {
+        match o {
+            IOStatus::Shared => {
+                let s0 = gen_value(t, rng);
+                let s1 = gen_value(t, rng);
+                let s2 = sub2_pub(x, &s0, &s1, t);
+                res.push(Value::from_vector(vec![s0, s1, s2]));
+            }
+            _ => res.push(x.clone()),
+        }
+    }
+    res
+}
+
+pub fn end_to_end(p: &Prog, owners: &[IOStatus], outs: &[IOStatus], mname: &str, mode: InlineConfig, rng: &mut Rng, out: &mut Out, n_eval: usize, gen_inputs: &dyn Fn(&mut Rng) -> Vec<Value>, class_prefix: &str) -> Option<Compiled> {
+    let ops_desc: Vec<String> = p.g.get_nodes().iter().map(|n| op_name(&n.get_operation())).collect();
+    let desc = json!({"ops": ops_desc, "input_types": p.input_types.iter().map(|t| format!("{}", t)).collect::<Vec<_>>(), "owners": owners.iter().map(status_str).collect::<Vec<_>>(), "outputs": outs.iter().map(status_str).collect::<Vec<_>>(), "inline": mname});
+    let c = match compile(p, owners, outs, mode) { Outcome::Ok(c) => c, Outcome::Err => { out.stat("compile:Err"); return None; } Outcome::Panic => { out.stat("compile:Panic"); out.violation("compiler-panics", desc, "compile_context panicked".into()); return None; } };
+    out.stat("compile:Ok");
+    out.stat(&format!("inline:{}", mname));
+    out.stat(&format!("outputs:{}", outs.len()));
+    for o in owners { out.stat(&format!("owner:{}", status_str(o))); }
+    let src_out = p.g.get_output_node().unwrap();
+    let src_out_t = src_out.get_type().unwrap();
+    let truncating = p.g.get_nodes().iter().any(|n| matches!(n.get_operation(), Operation::Truncate(_)));
+    for _ in 0..n_eval {
+        let plain = gen_inputs(rng);
+        let pv = eval_all(&p.g, &plain, [5u8; 16]);
+        let plain_out = match pv[src_out.get_id() as usize].clone().ok() { Some(v) => v, None => { out.stat("plain:Err"); continue; } };
+        let cin = present_inputs(&p.input_types, owners, &plain, rng);
+        let mut seed = [0u8; 16];
+        for b in seed.iter_mut() { *b = rng.next() as u8; }
+        let g2 = c.g.clone();
+        let r = observe(|| evaluate_simple_evaluator(g2, cin, Some(seed)));
+        out.stat(&format!("compiled-eval:{}", r.tag()));
+        match r {
+            Outcome::Ok(v) => {
+                if truncating { out.stat("truncating-skipped-exact-compare"); continue; }
+                let private_out = owners.iter().any(|o| *o != IOStatus::Public);
+                let got = if outs.is_empty() && (src_out_t.is_array() || src_out_t.is_scalar()) {
+                    // kept shared: three shares adding up to the value
+                    match v.to_vector() { Ok(sh) if sh.len() == 3 => add3_pub(&sh[0], &sh[1], &sh[2], &src_out_t), _ => if private_out { None } else { Some(v.clone()) } }
+                } else if outs.is_empty() { None } else { Some(v.clone()) };
+                match got {
+                    Some(g) => if g != plain_out { out.violation(&format!("{}-compiled-result-differs", class_prefix), desc.clone(), "compiled graph (single evaluator) returns a value different from the source graph".into()); } else { out.oracle_ok(); },
+                    None => { out.stat("shared-nonarray-output-skipped"); }
+                }
+            }
+            Outcome::Err => { if !ops_desc.iter().any(|o| o.starts_with("Join")) { out.violation(&format!("{}-compiled-graph-fails", class_prefix), desc.clone(), "compiled graph returns an error where the source evaluates".into()); } }
+            Outcome::Panic => out.violation(&format!("{}-compiled-graph-panics", class_prefix), desc.clone(), "panic while evaluating the compiled graph".into()),
+        }
+    }
+    Some(c)
+}
+
+/// elementwise programs over one shape: add / sub / mul, at most one constant
+fn ring_program(rng: &mut Rng, st: ScalarType) -> Prog {
+    let ctx = create_context().unwrap();
+    let g = ctx.create_graph().unwrap();
+    let shape = small_shape(rng);
+    let t = array_type(shape, st);
+    let ni = 1 + rng.below(3) as usize;
+    let mut pool: Vec<Node> = (0..ni).map(|_| g.input(t.clone()).unwrap()).collect();
+    if rng.chance(1, 2) { pool.push(g.constant(t.clone(), gen_value(&t, rng)).unwrap()); }
+    if rng.chance(1, 6) { pool.push(g.zeros(t.clone()).unwrap()); }
+    // every operation has at least one operand that depends on an input, so that constant folding
+    // never rewrites a sub-expression into a new constant (which the ring reading cannot relate)
+    let mut dep: Vec<Node> = pool[..ni].to_vec();
+    let n_ops = 1 + rng.below(5);
+    for _ in 0..n_ops {
+        let a = rng.pick(&dep).clone();
+        let b = rng.pick(&pool).clone();
+        let (a, b) = if rng.chance(1, 2) { (a, b) } else { (b, a) };
+        let n = match rng.below(4) { 0 => a.add(b), 1 => a.subtract(b), _ => a.multiply(b) }.unwrap();
+        pool.push(n.clone());
+        dep.push(n);
+    }
+    let o = pool.last().unwrap().clone();
+    g.set_output_node(o).unwrap();
+    g.finalize().unwrap();
+    ctx.set_main_graph(g.clone()).unwrap();
+    ctx.finalize().unwrap();
+    Prog { ctx, g, input_types: vec![t; ni], attempts: vec![] }
+}
+
+fn ring_obligation(id: usize, p: &Prog, c: &Compiled, owners: &[IOStatus], outs: &[IOStatus]) -> String {
+    // quantified ring variables and the two input lists
+    let mut vars = vec![];
+    let mut src_ins = vec![];
+    let mut cmp_ins = vec![];
+    for (j, o) in owners.iter().enumerate() {
+        match o {
+            IOStatus::Shared => {
+                let (a, b, cc) = (format!("s{}_0", j), format!("s{}_1", j), format!("s{}_2", j));
+                vars.extend([a.clone(), b.clone(), cc.clone()]);
+                src_ins.push(format!("RLeaf R (radd (radd {} {}) {})", a, b, cc));
+                cmp_ins.push(format!("RTup R [RLeaf R {}; RLeaf R {}; RLeaf R {}]", a, b, cc));
+            }
+            _ => {
+                let x = format!("x{}", j);
+                vars.push(x.clone());
+                src_ins.push(format!("RLeaf R {}", x));
+                cmp_ins.push(format!("RLeaf R {}", x));
+            }
+        }
+    }
+    let private = owners.iter().any(|o| *o != IOStatus::Public);
+    let shared_out = outs.is_empty() && private;
+    let ev = "reval R r0 radd rmul rsub atom catom one";
+    format!(
+        "Section Case{id}.\n  Variable R : Type.\n  Variables (r0 r1 : R) (radd rmul rsub : R -> R -> R) (ropp : R -> R).\n  Hypothesis Rth : ring_theory r0 r1 radd rmul rsub ropp eq.\n  Add Ring Rr{id} : Rth.\n  Variables (atom : Z -> R) (catom : value -> R) (one : R).\n  Goal forall ({vars} : R), exists v,\n    rout R radd ({ev} {cn} [] [{ci}]) {co} {sh} = Some v /\\\n    rout R radd ({ev} {sn} [] [{si}]) {so} false = Some v.\n  Proof. intros. eexists. split; [cbv; reflexivity | cbv; f_equal; ring]. Qed.\nEnd Case{id}.\n",
+        id = id, vars = vars.join(" "), ev = ev,
+        cn = nodes_coq(&c.g), ci = cmp_ins.join("; "), co = c.g.get_output_node().unwrap().get_id(), sh = if shared_out { "true" } else { "false" },
+        sn = nodes_coq(&p.g), si = src_ins.join("; "), so = p.g.get_output_node().unwrap().get_id()
+    )
+}
+
+pub fn run(tier: &str, seed: u64, out: &mut Out) {
+    let mut rng = Rng::new(seed ^ 0xC01);
+    let (n_ring, n_frag, n_wide, n_special) = match tier { "thorough" => (150, 250, 250, 12), "search" => (100, 500, 500, 20), _ => (24, 30, 30, 2) };
+    let modes = inline_modes();
+    let all_outs = output_subsets();
+    let int_sts = [UINT8, INT16, UINT32, INT32, UINT64, INT64, UINT128];
+    // (2) + (1) on the ring fragment
+    for i in 0..n_ring {
+        let st = if i % 5 == 4 { BIT } else { *rng.pick(&int_sts) };
+        let p = ring_program(&mut rng, st);
+        let owners = random_owners(p.input_types.len(), &mut rng);
+        let outs = all_outs[i % 8].clone();
+        let (mname, mode) = modes[i % 3].clone();
+        let its = p.input_types.clone();
+        if let Some(c) = end_to_end(&p, &owners, &outs, mname, mode, &mut rng, out, 2, &move |r: &mut Rng| its.iter().map(|t| gen_value(t, r)).collect(), "ring") {
+            let ops_desc: Vec<String> = p.g.get_nodes().iter().map(|n| op_name(&n.get_operation())).collect();
+            let desc = json!({"ops": ops_desc, "st": scalar(st), "owners": owners.iter().map(status_str).collect::<Vec<_>>(), "outputs": outs.iter().map(status_str).collect::<Vec<_>>(), "inline": mname, "compiled_nodes": c.g.get_nodes().len()});
+            let private = owners.iter().any(|o| *o != IOStatus::Public);
+            out.vernac_case("T:ring", ring_obligation(i, &p, &c, &owners, &outs), desc, private);
+        }
+    }
+    // (1) fragment and wider programs
+    for i in 0..(n_frag + n_wide) {
+        let wide = i >= n_frag;
+        let st = if i % 7 == 6 { BIT } else { *rng.pick(&int_sts) };
+        let ops: Vec<&'static str> = if st == BIT { vec!["add", "mul", "mul", "stack", "get", "reshape", "constant", "sum"] } else if wide { MPC_OPS.to_vec() } else { FRAGMENT_OPS.to_vec() };
+        let (ni, no) = (1 + rng.below(3) as usize, 1 + rng.below(7) as usize);
+        let p = gen_mpc_program(&mut rng, &ops, ni, no, &[st]);
+        let owners = random_owners(ni, &mut rng);
+        let outs = all_outs[i % 8].clone();
+        let (mname, mode) = modes[i % 3].clone();
+        let its = p.input_types.clone();
+        end_to_end(&p, &owners, &outs, mname, mode, &mut rng, out, 2, &move |r: &mut Rng| its.iter().map(|t| gen_value(t, r)).collect(), if wide { "wide" } else { "fragment" });
+    }
+    // (1) joins and sort
+    let jts = [JoinType::Union, JoinType::Inner, JoinType::Left, JoinType::Full];
+    for i in 0..n_special {
+        let jt = jts[i % 4];
+        let (n0, n1) = (2 + rng.below(2), 1 + rng.below(2));
+        let p = join_program(jt, n0, n1);
+        let owners = match i % 3 { 0 => vec![IOStatus::Party(0), IOStatus::Party(1)], 1 => vec![IOStatus::Party(1), IOStatus::Public], _ => vec![IOStatus::Party(2), IOStatus::Party(0)] };
+        let outs = vec![IOStatus::Party(((i + 2) % 3) as u64)];
+        let (mname, mode) = modes[i % 3].clone();
+        end_to_end(&p, &owners, &outs, mname, mode, &mut rng, out, 2, &move |r: &mut Rng| vec![table_value_pub(n0, r, 0), table_value_pub(n1, r, 1)], &format!("join-{:?}", jt));
+        let (n, b) = (2 + rng.below(3), 1 + rng.below(3));
+        let p = sort_program(n, b);
+        let its = p.input_types.clone();
+        end_to_end(&p, &[IOStatus::Party((i % 3) as u64)], &[IOStatus::Party(((i + 1) % 3) as u64)], mname, modes[i % 3].1.clone(), &mut rng, out, 2, &move |r: &mut Rng| its.iter().map(|t| gen_value(t, r)).collect(), "sort");
+    }
+}
